@@ -2,6 +2,11 @@
   Spec.TapTweak — BIP341 commitment check: with internal key bytes `base` (32 bytes, must be
   liftable), tweak t = int(hash) (fail if t ≥ n), Q = lift_x(int(base)) + t·G (fail if infinite):
   accept iff bytes(x(Q)) = the output key and the parity bit equals y(Q) mod 2.
+
+  LENGTHS: `hash` is read as the integer its bytes spell, whatever their number — as the code does
+  (`tweak.SetBytes(hash)`): an empty hash is t = 0 and the 33 bytes 00‖t are t. BIP341 only ever
+  produces a 32-byte tagged hash here and so do the consensus callers; the spec (and the theorem
+  `tweak_accept_iff`) is about the integer, not about "hash is a 32-byte string".
 -/
 import GocoinV.Base.Secp
 namespace GocoinV.Spec.TapTweak
